@@ -332,6 +332,31 @@ func runCompCase(c *compCase, res *vlib.Result, label string) (kcase string, non
 		}
 		sb.WriteString("] " + coqMoves(c.Moves) + " " + coqObs(wr.Obs))
 		kcase = sb.String()
+	case "nested":
+		var sb strings.Builder
+		sb.WriteString(fmt.Sprintf("CNested %d [", c.Cid))
+		for j, bl := range c.Nested {
+			if j > 0 {
+				sb.WriteString(";")
+			}
+			sb.WriteString("[")
+			for i, b := range bl {
+				if i > 0 {
+					sb.WriteString(";")
+				}
+				sb.WriteString("(" + vlib.CoqHex(b.IKey) + "," + coqKVs(b.Data) + ")")
+			}
+			sb.WriteString("]")
+		}
+		sb.WriteString("] [")
+		for i, ch := range c.Children {
+			if i > 0 {
+				sb.WriteString(";")
+			}
+			sb.WriteString(coqKVs(ch))
+		}
+		sb.WriteString("] " + coqMoves(c.Moves) + " " + coqObs(wr.Obs))
+		kcase = sb.String()
 	}
 	return kcase, nontrivial, false
 }
